@@ -162,3 +162,67 @@ M("c02-closure-not-recursive", "C02", "C02.R4", RTF, "                names.add(
 M("c02-closure-skips-inline", "C02", "C02.R4", RTF, "isinstance(node, (FieldNode, InlineFragmentNode)) and node.selection_set", "isinstance(node, FieldNode) and node.selection_set")
 M("c02-unpacked-definitions-missing", "C02", "C02.R4", RTF, "        return fragments_names.union(self._unpacked_fragments)", "        return fragments_names")
 M("c02-fragments-only-with-mixins", "C02", "C02.R4", RTF, "        if self._fragments_used_as_mixins or self._unpacked_fragments:", "        if self._fragments_used_as_mixins:")
+
+# ----------------------------------------------------------------------- C02 (package side)
+PKF = CG + "package.py"
+CLF = CG + "client.py"
+M("c02-code-replace", "C02", "C02.R1", "utils.py", "    if remove_unused_imports:\n        code = fix_code(code, remove_all_unused_imports=True)", "    code = code.replace(\"\\\\t\", \"    \")\n    if remove_unused_imports:\n        code = fix_code(code, remove_all_unused_imports=True)")
+M("c02-client-code-regex", "C02", "C02.R1", PKF, "        if self.plugin_manager:\n            code = self.plugin_manager.generate_client_code(code)\n        client_file_path.write_text(code)", "        code = re.sub(r\"[ ]+$\", \"\", code)\n        client_file_path.write_text(code)")
+M("c02-blank-line-filter-strips", "C02", "C02.R1", "utils.py", "            code_lines.append(line)\n    return", "            code_lines.append(line.rstrip())\n    return")
+M("c02-opname-from-method-name", "C02", "C02.R5", CLF, "                generate_keyword(\n                    value=generate_constant(operation_name), arg=\"operation_name\"\n                ),\n                generate_keyword(\n                    value=generate_name(variable_names[self._variables_dict_variable]),", "                generate_keyword(\n                    value=generate_constant(operation_name.lower()), arg=\"operation_name\"\n                ),\n                generate_keyword(\n                    value=generate_name(variable_names[self._variables_dict_variable]),")
+M("c02-opname-empty", "C02", "C02.R5", CLF, 'operation_name = definition.name.value if definition.name else ""', 'operation_name = ""')
+M("c02-lines-stripped", "C02", "C02.R5", CLF, '[generate_constant(l + "\\n") for l in operation_str.splitlines()]', '[generate_constant(l.strip() + "\\n") for l in operation_str.splitlines()]')
+M("c02-lines-nonempty", "C02", "C02.R5", CLF, '[generate_constant(l + "\\n") for l in operation_str.splitlines()]', '[generate_constant(l + "\\n") for l in operation_str.splitlines() if l]')
+M("c02-kwargs-not-forwarded", "C02", "C02.R5", CLF, "                generate_keyword(value=generate_name(KWARGS_NAMES)),\n            ],\n        )\n\n    def _generate_data_retrieval", "            ],\n        )\n\n    def _generate_data_retrieval")
+M("c02-validation-rules-fewer", "C02", "C02.R6", "schema.py", "rules=[r for r in specified_rules if r is not NoUnusedFragmentsRule],", "rules=[r for r in specified_rules[:10] if r is not NoUnusedFragmentsRule],")
+M("c02-validation-errors-ignored", "C02", "C02.R6", "schema.py", "    if validation_errors:\n        raise InvalidOperationForSchema(", "    if len(validation_errors) > 1:\n        raise InvalidOperationForSchema(")
+
+# ----------------------------------------------------------------------- C04
+M("c04-reserved-type", "C04", "C04.R1", RTF, "return GraphQLField(type_=GraphQLNonNull(type_=GraphQLString))", "return GraphQLField(type_=GraphQLNonNull(type_=GraphQLScalarType(name=\"String\")))")
+M("c04-enums-not-reported", "C04", "C04.R2", PKF, "        enums_file_path.write_text(code)\n        self._generated_files.append(enums_file_path.name)", "        enums_file_path.write_text(code)")
+M("c04-report-unsorted", "C04", "C04.R2", PKF, "        return sorted(self._generated_files)", "        return self._generated_files")
+M("c04-copy-reports-source-only-when-plugin", "C04", "C04.R2", PKF, "            target_path.write_text(code)\n            self._generated_files.append(target_path.name)", "            target_path.write_text(code)\n            if self.plugin_manager:\n                self._generated_files.append(target_path.name)")
+M("c04-validate-after-mkdir", "C04", "C04.R3", PKF, "        self._validate_unique_file_names()\n        if not self.package_path.exists():\n            self.package_path.mkdir()\n", "        if not self.package_path.exists():\n            self.package_path.mkdir()\n        self._validate_unique_file_names()\n")
+M("c04-fragments-name-unchecked", "C04", "C04.R3", PKF, '                f"{self.fragments_module_name}.py",\n            ]\n            + list(self._result_types_files.keys())', '            ]\n            + list(self._result_types_files.keys())')
+M("c04-includes-unchecked", "C04", "C04.R3", PKF, "            + list(self._result_types_files.keys())\n            + [f.name for f in self.files_to_include]\n        )", "            + list(self._result_types_files.keys())\n        )")
+M("c04-all-missing-names", "C04", "C04.R5", CG + "init_file.py", "constants_names.extend([n.name for n in import_.names])", "constants_names.extend([n.name for n in import_.names[:1]])")
+M("c04-rebuild-missing", "C04", "C04.R6", RTF, "            for class_def in self._class_defs\n            if model_has_forward_refs(class_def)\n        ]", "            for class_def in self._class_defs[:1]\n            if model_has_forward_refs(class_def)\n        ]")
+M("c04-rebuild-before-classes", "C04", "C04.R6", CG + "input_types.py", "            cast(List[ast.stmt], self._imports)\n            + cast(List[ast.stmt], class_defs)\n            + cast(List[ast.stmt], model_rebuild_calls)", "            cast(List[ast.stmt], self._imports)\n            + cast(List[ast.stmt], model_rebuild_calls)\n            + cast(List[ast.stmt], class_defs)")
+M("c04-keyerror-raised", "C04", "C04.R7", CG + "arguments.py", '            raise ParsingError(f"Argument type {name} not found in schema.")', '            raise KeyError(f"Argument type {name} not found in schema.")')
+M("c04-enum-import-missing", "C04", "C04.R4", RTF, "            self._used_enums.extend(field_context.enums)\n", "")
+M("c04-result-scalar-imports-missing", "C04", "C04.R4", RTF, "            self._imports.extend(generate_scalar_imports(scalar_data))\n\n        if (\n            isinstance(self.operation_definition", "            pass\n\n        if (\n            isinstance(self.operation_definition")
+M("c04-return-type-import-missing", "C04", "C04.R4", CLF, "        self._add_import(\n            generate_import_from(names=[return_type], from_=return_type_module, level=1)\n        )", "        pass")
+M("c04-used-inputs-not-recorded", "C04", "C04.R4", CG + "arguments.py", "            self._used_inputs.append(name)", "            pass")
+M("c04-enum-not-recorded-result", "C04", "C04.R4", RFF, "    context.enums.append(type_.name)\n", "")
+M("c04-benign-rename", "C04", None, PKF, "enums_file_path", "enums_path", count=0)
+
+# ----------------------------------------------------------------------- C09
+M("c09-enums-before-client", "C09", "C09.R1", PKF, "        self._generate_client()\n        self._generate_enums()\n", "        self._generate_enums()\n        self._generate_client()\n")
+M("c09-enums-before-fragments", "C09", "C09.R1", PKF, "        self._generate_result_types()\n        self._generate_fragments()\n", "        self._generate_result_types()\n        self._generate_enums()\n        self._generate_fragments()\n")
+M("c09-fragment-enums-dropped", "C09", "C09.R2", PKF, "        self._used_enums.extend(self.fragments_generator.get_used_enums())\n", "")
+M("c09-arg-enums-dropped", "C09", "C09.R2", PKF, "        self._used_enums.extend(\n            self.client_generator.arguments_generator.get_used_enums()\n        )\n", "")
+M("c09-result-enums-dropped", "C09", "C09.R2", PKF, "        self._used_enums.extend(query_types_generator.get_used_enums())\n", "")
+M("c09-input-enums-before-generate", "C09", "C09.R3", PKF, "        if self.include_all_inputs:\n            module = self.input_types_generator.generate()", "        self._used_enums.extend(self.input_types_generator.get_used_enums())\n        if self.include_all_inputs:\n            module = self.input_types_generator.generate()")
+M("c09-closure-first-only", "C09", "C09.R4", CG + "input_types.py", "        for name in types_to_include:\n            types_names.update(self._get_dependencies_of_type(name))", "        for name in types_to_include[:1]:\n            types_names.update(self._get_dependencies_of_type(name))")
+M("c09-closure-not-transitive", "C09", "C09.R4", CG + "input_types.py", "                for neighbor in self._dependencies[node]:\n                    dfs(neighbor)", "                for neighbor in self._dependencies[node]:\n                    result.append(neighbor)")
+M("c09-deps-only-required", "C09", "C09.R4", CG + "input_types.py", "            self._save_dependencies(root_type=definition.name, field_type=field_type)", "            if field_implementation.value is None:\n                self._save_dependencies(root_type=definition.name, field_type=field_type)")
+M("c09-enum-deps-as-inputs", "C09", "C09.R4", CG + "input_types.py", "            self._used_enums[root_type].append(field_type)", "            self._dependencies[root_type].append(field_type)")
+M("c09-used-enums-all-inputs", "C09", "C09.R4", CG + "input_types.py", "        for input_name in self._generated_public_names:\n            enums.extend(self._used_enums[input_name])", "        for input_name in self._generated_public_names[:-1]:\n            enums.extend(self._used_enums[input_name])")
+M("c09-pruned-inputs-from-all", "C09", "C09.R3", PKF, "            used_inputs = self.client_generator.arguments_generator.get_used_inputs()\n", "            used_inputs = self.client_generator.arguments_generator.get_used_inputs()[:1]\n")
+
+# ----------------------------------------------------------------------- C17
+M("c17-keyword-accepted", "C17", "C17.R2", "settings.py", "    if not name.isidentifier() or iskeyword(name):", "    if not name.isidentifier() and not iskeyword(name):")
+M("c17-fragments-name-unchecked", "C17", "C17.R1", "settings.py", "        assert_string_is_valid_python_identifier(self.fragments_module_name)\n", "")
+M("c17-client-name-checked-late", "C17", "C17.R1", "settings.py", "        assert_string_is_valid_python_identifier(self.client_name)\n", "        if self.async_client:\n            assert_string_is_valid_python_identifier(self.client_name)\n")
+M("c17-no-schema-source-ok", "C17", "C17.R1", "settings.py", "        if not self.schema_path and not self.remote_schema_url:", "        if not self.schema_path and self.remote_schema_url:")
+M("c17-dir-check-inverted", "C17", "C17.R2", "settings.py", "    if not Path(path).is_dir():", "    if Path(path).is_file():")
+M("c17-target-types", "C17", "C17.R2", "settings.py", 'if file_type not in ("py", "graphql", "gql"):', 'if file_type not in ("py", "graphql", "gql", "txt"):')
+M("c17-header-var-empty-ok", "C17", "C17.R2", "settings.py", "        if not var_value:\n            raise InvalidConfiguration(\n                f\"Environment variable {env_var_name} not found.\"\n            )\n        return var_value", "        return var_value or \"\"")
+M("c17-schema-validated-after-generate", "C17", "C17.R4", "main.py", "    schema = plugin_manager.process_schema(schema)\n    assert_valid_schema(schema)\n\n    fragments = []", "    schema = plugin_manager.process_schema(schema)\n\n    fragments = []")
+M("c17-queries-validated-late", "C17", "C17.R4", "main.py", "    generated_files = package_generator.generate()\n", "    generated_files = package_generator.generate()\n    if settings.queries_path:\n        get_graphql_queries(settings.queries_path, schema)\n")
+M("c17-settings-mkdir", "C17", "C17.R4", "config.py", "    section = get_section(config_dict).copy()\n", "    section = get_section(config_dict).copy()\n    Path(section.get(\"target_package_path\", \".\")).mkdir(exist_ok=True)\n")
+M("c17-syntax-error-raw", "C17", "C17.R4", "schema.py", "    except GraphQLSyntaxError as exc:\n        raise InvalidGraphqlSyntax(f\"Invalid graphql syntax in file {path}\") from exc", "    except GraphQLSyntaxError:\n        raise")
+M("c17-config-mutated", "C17", "C17.R6", "config.py", "    section = get_section(config_dict).copy()\n", "    section = get_section(config_dict)\n")
+M("c17-unknown-keys-kept", "C17", "C17.R6", "config.py", "                for key, value in section.items()\n                if key in settings_fields_names\n            }\n        )\n    except TypeError as exc:\n        missing_fields = settings_fields_names.difference(section)\n        raise MissingConfiguration(\n            f\"Missing configuration fields: {', '.join(missing_fields)}\"\n        ) from exc\n\n\ndef get_section", "                for key, value in section.items()\n            }\n        )\n    except TypeError as exc:\n        missing_fields = settings_fields_names.difference(section)\n        raise MissingConfiguration(\n            f\"Missing configuration fields: {', '.join(missing_fields)}\"\n        ) from exc\n\n\ndef get_section")
+M("c17-scalar-keyerror", "C17", "C17.R6", "config.py", "    except KeyError as exc:\n        raise MissingConfiguration(\n            \"Missing 'type' field for scalar definition\"\n        ) from exc", "    except KeyError:\n        raise")
+M("c17-benign-reorder", "C17", None, "settings.py", "        assert_string_is_valid_python_identifier(self.enums_module_name)\n        assert_string_is_valid_python_identifier(self.input_types_module_name)\n", "        assert_string_is_valid_python_identifier(self.input_types_module_name)\n        assert_string_is_valid_python_identifier(self.enums_module_name)\n")
